@@ -28,6 +28,9 @@ import tr_fs  # noqa: E402
 SPLIT_ID = 'C07-split-package'
 SPLIT_CLASS = ("the dotted name's parent package is found by importlib in an earlier root than the one "
                "where supp finds the full path")
+EXT_ID = 'C07-extension-next-to-source'
+EXT_CLASS = ('supp selects the source (or bytecode) file of a module while an extension-suffix file of the same module '
+             'name exists in the same directory, which importlib loads')
 T = 'T'                      # canonical name of the temporary base directory in model paths / evidence
 EXT = list(importlib.machinery.EXTENSION_SUFFIXES)
 ALL_SUFFIXES = list(importlib.machinery.all_suffixes())
@@ -442,6 +445,23 @@ def is_split(env, name, supp_res):
     return False
 
 
+def is_ext_next_to_source(supp_res, oracle_res):
+    """the deterministic classifier of the recorded finding C07-extension-next-to-source: supp selects the source
+    (or bytecode) file `d/m<.py|.pyc>` and importlib loads an extension file `d/m<ext suffix>` of the same module
+    name in the same directory"""
+    if not isinstance(supp_res, dict) or not isinstance(oracle_res, dict) or 'file' not in supp_res or 'file' not in oracle_res:
+        return False
+    sf, of = supp_res['file'], oracle_res['file']
+    if os.path.dirname(sf) != os.path.dirname(of):
+        return False
+    nonext = list(importlib.machinery.SOURCE_SUFFIXES) + list(importlib.machinery.BYTECODE_SUFFIXES)
+    for a in nonext:
+        for b in EXT:
+            if sf.endswith(a) and of.endswith(b) and os.path.basename(sf)[:-len(a)] == os.path.basename(of)[:-len(b)]:
+                return True
+    return False
+
+
 def canon_res(r, base):
     if isinstance(r, dict):
         return {k: (canon_path(v, base) if k in ('file',) else
@@ -479,6 +499,10 @@ def load_supp():
 def blob(kind, tree_desc, **kw):
     """machine-readable description of a correspondence disagreement (re-run by `replay`)"""
     return ' REPLAY' + json.dumps(dict(kw, kind=kind, tree=tree_desc), sort_keys=True)
+
+
+def ext_matcher(what, replay):
+    return bool(replay.get('ext_class')) and bool(replay.get('model_equals_supp'))
 
 
 def split_matcher(what, replay):
@@ -568,7 +592,7 @@ def run_tree(check, supp, stats, spec, quick, tree_no):
                             check.oblige('correspondence get_module', False,
                                          'name %r roots %r: supp %r, model %r' % (name, perm, cs, m) + blob('get', tree_desc, name=name))
                     in_dom = r['valid'] and r['nons'] and r['noclash'] and r['regular']
-                    for k in ('valid', 'nons', 'noclash', 'regular', 'nosplit'):
+                    for k in ('valid', 'nons', 'noclash', 'noext', 'regular', 'nosplit'):
                         stats['hyp'][k] += 1 if r[k] else 0
                     stats['hyp']['n'] += 1
                     kind = 'file-src' if s.get('src') else 'file-nonsrc' if 'file' in s else 'loaded' if 'loaded' in s else s.get('err')
@@ -578,9 +602,12 @@ def run_tree(check, supp, stats, spec, quick, tree_no):
                     if not ok:
                         split = is_split(env, name, s)
                         rep = {'kind': 'find', 'tree': tree_desc, 'name': name, 'supp': cs, 'importlib': co, 'model': m,
-                               'split_class': split, 'model_equals_supp': cs == m,
-                               'hypotheses': {k: r[k] for k in ('valid', 'nons', 'noclash', 'regular', 'nosplit')}}
+                               'split_class': split, 'ext_class': is_ext_next_to_source(s, o), 'model_equals_supp': cs == m,
+                               'hypotheses': {k: r[k] for k in ('valid', 'nons', 'noclash', 'noext', 'regular', 'nosplit')}}
                         if in_dom:
+                            if rep['ext_class']:
+                                stats['ext_seen'] += 1
+                                stats['ext_noext_flag_false'] += 0 if r['noext'] else 1
                             if split:
                                 stats['split_seen'] += 1
                                 stats['split_nosplit_flag_false'] += 0 if r['nosplit'] else 1
@@ -588,7 +615,7 @@ def run_tree(check, supp, stats, spec, quick, tree_no):
                         else:
                             why = [k for k in ('valid', 'nons', 'noclash', 'regular') if not r[k]]
                             stats['out_of_domain']['find:' + '+'.join(why)] = stats['out_of_domain'].get('find:' + '+'.join(why), 0) + 1
-                    elif in_dom and r['nosplit']:
+                    elif in_dom and r['nosplit'] and r['noext']:
                         stats['in_domain_agree'] += 1
                     # spec side of the model against importlib as well (keeps the Lean spec honest)
                     sp = r['spec']
@@ -656,16 +683,20 @@ def run_tree(check, supp, stats, spec, quick, tree_no):
                 for (fn, line), r in zip(asst, a_asst):
                     stats['evaluations'] += 1
                     s = env.assist(line, fn)
-                    mod = {'ok': r['model']} if 'ok' in r else {'err': r['err']}
+                    mod = {'ok': r['model']}      # assistant.list_packages: [] when norm_package raises ImportError
                     if s != mod:
                         stats['dis_assist'] += 1
                         if stats['dis_assist'] <= 5:
                             check.oblige('correspondence assist on import lines', False,
                                          'file %r line %r: supp %r, model %r' % (canon_path(fn, base), line, s, mod) +
                                          blob('assist', tree_desc, file=canon_path(fn, base)[len(T) + 1:], line=line))
-                    if 'ok' in s and 'ok' in r:
+                    if 'ok' in s and 'ok' in r['norm']:
                         stats['assist_lines'] += 1
-                        list_oracle(check, env, base, stats, tree_desc, r['ok'], s['ok'], 'assist(%r) in %s' % (line, canon_path(fn, base)), r)
+                        list_oracle(check, env, base, stats, tree_desc, r['norm']['ok'], s['ok'], 'assist(%r) in %s' % (line, canon_path(fn, base)), r)
+                    elif 'ok' in s and s['ok']:
+                        check.fail('assist(%r) in %s proposes %r although the relative name is above the top-level package'
+                                   % (line, canon_path(fn, base), s['ok']),
+                                   {'kind': 'assist-above', 'tree': tree_desc, 'file': canon_path(fn, base)[len(T) + 1:], 'line': line})
                 for pnd in stats['pending_list']:
                     if len(pnd) == 6:
                         pending_all.append(pnd + (env, tree_desc))
@@ -773,6 +804,8 @@ def run(check):
     for k in check.known:
         if k.get('id') == SPLIT_ID:
             k['_matcher'] = split_matcher
+        if k.get('id') == EXT_ID:
+            k['_matcher'] = ext_matcher
 
     try:
         supp = load_supp()
@@ -790,7 +823,8 @@ def run(check):
     full_path = norm_sys_path()
     small = [p for p in full_path if p.endswith('.zip') or p.endswith('lib-dynload')]
     stats = {'evaluations': 0, 'dis_get': 0, 'dis_list': 0, 'dis_norm': 0, 'dis_assist': 0, 'dis_spec': 0, 'dis_pkg': 0,
-             'hyp': {'valid': 0, 'nons': 0, 'noclash': 0, 'regular': 0, 'nosplit': 0, 'n': 0, 'clean': 0, 'n_rel': 0},
+             'ext_seen': 0, 'ext_noext_flag_false': 0,
+             'hyp': {'valid': 0, 'nons': 0, 'noclash': 0, 'noext': 0, 'regular': 0, 'nosplit': 0, 'n': 0, 'clean': 0, 'n_rel': 0},
              'outcomes': {}, 'rel_outcomes': {}, 'out_of_domain': {}, 'split_seen': 0, 'split_nosplit_flag_false': 0,
              'in_domain_agree': 0, 'distinct': set(), 'assist_lines': 0, 'pending_list': [],
              'syspath_full': full_path, 'syspath_small': small}
@@ -822,6 +856,8 @@ def run(check):
     # the recorded witness first, then the generated trees
     specs.insert(0, {'files': [('r1', 'pk', '__init__.py'), ('r2', 'pk', '__init__.py'), ('r2', 'pk', 'm2.py')],
                      'dirs': [('r1',), ('r1', 'pk'), ('r2',), ('r2', 'pk')], 'n_roots': 2, 'quirky': False, 'full_sys_path': False})
+    specs.insert(1, {'files': [('r1', 'm.abi3.so'), ('r1', 'm.py')], 'dirs': [('r1',)], 'n_roots': 1, 'quirky': False,
+                     'full_sys_path': False})
     for i, spec in enumerate(specs):
         run_tree(check, supp, stats, spec, quick, i)
 
@@ -845,6 +881,9 @@ def run(check):
         'trees': len(specs), 'hypotheses_true_of': stats['hyp'], 'get_module_outcomes': stats['outcomes'],
         'norm_package_outcomes': stats['rel_outcomes'], 'out_of_domain_disagreements_with_importlib (observations, not failures)': stats['out_of_domain'],
         'in_domain_names_agreeing_with_importlib': stats['in_domain_agree'], 'split_package_hits': stats['split_seen'],
+        'extension_next_to_source_hits': stats['ext_seen'],
+        'extension_next_to_source_hits_with_NoExtensionNextToSource_false': stats['ext_noext_flag_false'],
+        'split_package_find_hits_with_NoSplitPackage_false': stats['split_nosplit_flag_false'],
         'assist_lines_compared': stats['assist_lines'],
         'disagreements': {k: stats[k] for k in ('dis_get', 'dis_list', 'dis_norm', 'dis_assist', 'dis_spec')},
     })
@@ -857,7 +896,7 @@ def run(check):
         'non-source files is not performed (only the selected file is compared); sys.modules and sys.path are parameters',
         'no __init__.py above the temporary directory (norm_package would climb into it; with /__init__.py it does not terminate)',
         'domain of the oracle comparison = the decidable hypotheses of C07_find evaluated by the driver per name: validComps, '
-        'NoNamespaceDirs, NoModulePackageClash (at most one candidate per name and directory: also m.py next to m.so), Regular '
+        'NoNamespaceDirs, NoModulePackageClash (module file next to a package directory of the same name), Regular '
         '(no directory named like a module file, no __init__.<ext> / __init__.pyc packages); outside it disagreements are counted, not failed',
         'builtin/frozen modules are compared only through the sys.modules fallback; .pth files, zip imports and meta-path finders are not modelled',
     ]
@@ -906,7 +945,7 @@ def replay_correspondence(supp, rep):
             elif k == 'norm':
                 model = r['model']
             else:
-                model = {'ok': r['model']} if 'ok' in r else {'err': r['err']}
+                model = {'ok': r['model']}
             print('  %s %s: code %r, model %r -> %s' % (k, {x: rep[x] for x in rep if x not in ('tree', 'kind')}, real, model,
                                                        'agree' if real == model else 'DISAGREE'))
             return 0 if real == model else 1
@@ -931,6 +970,10 @@ def replay(path):
                 if rep['kind'] == 'find':
                     ok, s, o = find_verdict(env, rep['name'])
                     print('get_module(%r): supp %r, importlib %r -> %s' % (rep['name'], canon_res(s, base), canon_res(o, base), 'agree' if ok else 'DISAGREE'))
+                elif rep['kind'] == 'assist-above':
+                    s = env.assist(rep['line'], os.path.join(base, rep['file']))
+                    ok = s == {'ok': []}
+                    print('assist(%r) in %s = %r -> %s' % (rep['line'], rep['file'], s, 'agree' if ok else 'DISAGREE'))
                 elif rep['kind'] == 'relative':
                     fn = os.path.join(base, rep['file'])
                     s, o = env.norm_package(rep['rel'], fn), oracle_resolve(rep['rel'], file_package(fn))
